@@ -76,19 +76,26 @@ pub fn c12_nesting_body<S: Src>(s: &mut S) {
     core::mem::forget(p);
 }
 
-/// @harness props=C12:Q,C20:T n=3 err=Cheap timeout=900
-/// @shape E = recursive(|e| e.delimited_by(t0, t1).map(depth+1) | t2.to(0))     vs the unrolled grammar
-/// @symbolic t0..t2: u8
-/// @aims recursive() itself (Rc::new_cyclic, weak self-handle upgraded on every call)
+/// @harness props=C12:T n=2 err=Cheap timeout=2400
+/// @shape E = recursive(|e| (t0 then e).map(depth+1) | t1.to(0))     [right recursion through recursive()]  vs  t0^d t1
+/// @symbolic t0, t1: u8; input 2 bytes
+/// @aims recursive() itself (Rc::new_cyclic, weak self-handle upgraded on every call) at the smallest bound that nests once
 pub fn c12_recursive_fn_body<S: Src>(s: &mut S) {
-    let t = [s.u8(), s.u8(), s.u8()];
-    let inp = Inp::<3>::any(s);
+    let t = [s.u8(), s.u8()];
+    let inp = Inp::<2>::any(s);
     let x = inp.get();
-    let p = nest(t);
+    let p = recursive::<_, _, X, _, _>(move |e| {
+        just::<u8, I, X>(t[0])
+            .ignore_then(e)
+            .map(|d: Tr| Tr::tok(d.low().wrapping_add(1)))
+            .or(just::<u8, I, X>(t[1]).to(Tr::tok(0)))
+    });
     let r = p.parse(x);
     contract(&r);
-    let want = match nest_oracle(x, t, 0, 4) {
-        Some((d, p)) if p == x.len() => Some(Tr::tok(d)),
+    // t0^d t1 (first alternative tried first: with t0 == t1 a lone t0 still matches through the second alternative)
+    let want = match x.len() {
+        1 if x[0] == t[1] => Some(Tr::tok(0)),
+        2 if x[0] == t[0] && x[1] == t[1] => Some(Tr::tok(1)),
         _ => None,
     };
     let out = r.output().copied();
@@ -178,7 +185,7 @@ pub fn c12_mutual_body<S: Src>(s: &mut S) {
 }
 
 crate::harnesses! {
-    c12_recursive_fn [5] = c12_recursive_fn_body;
+    c12_recursive_fn [4] = c12_recursive_fn_body;
 }
 crate::harnesses_stub_caller! {
     c12_nesting [5] = c12_nesting_body;
